@@ -243,6 +243,7 @@ def copy_method(ex, cp, name, args, kwargs, node_ast):
     ex.path.oblige(f'{ex.contract.qual}/tree/values_of_a_copy_without_terminal_key'
                    f'#{node_ast.lineno}', z3.Not(cp.has_term))
     n, keys, idx = children(ex, nd)
+    ex.path.ghost['last_children'] = (nd, n, keys, idx)
     it = Iter(n, lambda j: VNode(nd.tree, nd.child(keys[j])))
     it.keys, it.idx, it.node = keys, idx, nd
     it.elem_kind = KNode(nd.tree)
